@@ -74,3 +74,138 @@ Print Assumptions C01_monitor_sound_trajectories.
 (* non-vacuity: the initial state of any first frame is ok *)
 Example C01_init_ok : forall mem ds, state_ok mem (fst (init_state ds)).
 Proof. intros mem ds. exact (proj1 (init_state_ok mem ds)). Qed.
+
+(* ===== Route T: the table plumbing GENERATED from the current source =====================
+   Gen/coords.v is produced by tools/py2coq_coords.py from trackpy/linking/utils.py
+   (coords_from_df, coords_from_df_iter) and trackpy/linking/linking.py (link_iter, link,
+   link_df_iter) on every run of the check.  Vocabulary and conventions: Model/PyCoords.v
+   (DataFrame = column labels + rows with an identity and numeric cells; generators are the
+   lists they yield; [model_linker m mem max_size] interprets the Linker class by the step
+   machine of Model/Link.v, the one the theorems above are about).  The statements below are
+   proved about the generated functions themselves (Proofs/CoordsGen.v). *)
+From Coq Require Import String.
+From TP Require Import Model.PyCoords Model.LinkTable2 Gen.coords Proofs.CoordsGen.
+
+(* generated coords_from_df = the model: for a non-empty table with the columns it reads, it
+   yields, for every frame number from the smallest to the largest, that number and the positions
+   of the rows of that frame in input order (empty for missing numbers) *)
+Theorem C01_generated_coords_from_df : forall f pc tc,
+  has_col tc f = true -> has_cols pc f = true -> df_rows f <> [] ->
+  let rows := rows_of pc tc f in
+  py_coords_from_df f pc tc = ROk (combine (table_times rows) (map (map r_pos) (table_frames rows))).
+Proof. exact py_coords_from_df_eq. Qed.
+Print Assumptions C01_generated_coords_from_df.
+
+(* .. and an empty table makes it raise IndexError (unique_times[0]) *)
+Theorem C01_generated_coords_from_df_empty : forall f pc tc,
+  has_col tc f = true -> has_cols pc f = true -> df_rows f = [] -> py_coords_from_df f pc tc = RRaise EIndexError.
+Proof. exact py_coords_from_df_empty. Qed.
+Print Assumptions C01_generated_coords_from_df_empty.
+
+(* generated coords_from_df_iter: one (frame number of the first row | None, positions) per DataFrame *)
+Theorem C01_generated_coords_from_df_iter : forall pc tc dfs, forallb (has_cols (tc :: pc)) dfs = true ->
+  py_coords_from_df_iter (ROk dfs) pc tc = ROk (map (fun d => (first_t tc d, pos_of pc d)) dfs).
+Proof. exact py_coords_from_df_iter_eq. Qed.
+Print Assumptions C01_generated_coords_from_df_iter.
+
+(* generated link_iter over the model Linker = Model/Link.v's link_iter, for an iterable of
+   (t, coords) tuples and for an iterable of bare arrays (numbered 0, 1, 2, ..) *)
+Theorem C01_generated_link_iter_tuples : forall m mem max_size (items : list (option Z * coords)), items <> [] ->
+  py_link_iter (model_linker m mem max_size) (ROk (map item_of_pair items)) =
+  match link_iter m mem max_size no_pred (map snd items) with
+  | Oversize => RRaise EOversize
+  | Ok labs => ROk (combine (map fst items) (zlabs labs))
+  end.
+Proof. exact py_link_iter_tuples. Qed.
+Print Assumptions C01_generated_link_iter_tuples.
+
+Theorem C01_generated_link_iter_arrays : forall m mem max_size (frames : list coords), frames <> [] ->
+  py_link_iter (model_linker m mem max_size) (ROk (map IArr frames)) =
+  match link_iter m mem max_size no_pred frames with
+  | Oversize => RRaise EOversize
+  | Ok labs => ROk (combine (enum_times (List.length frames)) (zlabs labs))
+  end.
+Proof. exact py_link_iter_arrays. Qed.
+Print Assumptions C01_generated_link_iter_arrays.
+
+(* generated link = link_table (Model/LinkTable.v): whenever the model's adapter returns rows paired
+   with labels, the generated link returns a table g whose rows are, in this order, the caller's rows
+   stably sorted by the frame column (same identities, every cell other than 'particle' unchanged),
+   which are exactly the rows link_table returns, with link_table's labels in column 'particle';
+   an oversize subnet in the model is SubnetOversizeException in the generated code.
+   pos_columns=None: guessed from the table's columns. *)
+Theorem C01_generated_link : forall m mem max_size f pcs tc,
+  metric_ok m ->
+  let pc := match pcs with Some v => v | None => guess_pos_columns f end in
+  has_col tc f = true -> has_cols pc f = true -> df_rows f <> [] -> ~ In "particle"%string (tc :: pc) ->
+  let S := isort_k (cell tc) (df_rows f) in
+  match link_table m mem max_size (rows_of pc tc f) with
+  | Oversize => py_link (model_linker m mem max_size) f pcs tc = RRaise EOversize
+  | Ok out => exists g, py_link (model_linker m mem max_size) f pcs tc = ROk g /\
+      map fst out = map (row_of pc tc) S /\
+      map (row_of pc tc) (df_rows g) = map fst out /\
+      map d_id (df_rows g) = map d_id S /\
+      (forall c, c <> "particle"%string -> map (cell c) (df_rows g) = map (cell c) S) /\
+      map (cell "particle") (df_rows g) = map Z.of_nat (map snd out)
+  end.
+Proof. exact py_link_eq. Qed.
+Print Assumptions C01_generated_link.
+
+(* generated link_df_iter = one labelled copy per DataFrame, labels from Model/Link.v's link_iter on
+   the per-DataFrame positions; pos_columns=None: guessed from the FIRST DataFrame of the iterable *)
+Theorem C01_generated_link_df_iter : forall m mem max_size dfs pcs tc, dfs <> [] ->
+  let pc := match pcs with Some v => v | None => guess_pos_columns (hd {| df_columns := []; df_float := []; df_rows := [] |} dfs) end in
+  forallb (has_cols (tc :: pc)) dfs = true ->
+  py_link_df_iter (model_linker m mem max_size) (ROk dfs) pcs tc = link_df_iter_model m mem max_size pc dfs.
+Proof. exact py_link_df_iter_eq. Qed.
+Print Assumptions C01_generated_link_df_iter.
+
+(* C01_labels_valid for the generated link_iter: one label per feature, no label twice in a frame *)
+Theorem C01_generated_labels_valid : forall m mem max_size (frames : list coords) out,
+  metric_ok m -> frames <> [] -> py_link_iter (model_linker m mem max_size) (ROk (map IArr frames)) = ROk out ->
+  exists labs, out = combine (enum_times (List.length frames)) (zlabs labs) /\
+               Forall2 (fun ds lb => List.length lb = List.length ds /\ NoDup lb) frames labs.
+Proof. exact gen_link_iter_valid. Qed.
+Print Assumptions C01_generated_labels_valid.
+
+(* C01_rows_preserved for the generated link: the returned rows are a permutation of the caller's rows
+   (the stable sort by frame), cells unchanged, and they are the concatenation of the frames handed to
+   the linker, labelled by the concatenation of per-frame label lists without repetition *)
+Theorem C01_generated_rows_preserved : forall m mem max_size f pcs tc g,
+  metric_ok m ->
+  let pc := match pcs with Some v => v | None => guess_pos_columns f end in
+  has_col tc f = true -> has_cols pc f = true -> df_rows f <> [] -> ~ In "particle"%string (tc :: pc) ->
+  py_link (model_linker m mem max_size) f pcs tc = ROk g ->
+  let S := isort_k (cell tc) (df_rows f) in
+  Permutation (map d_id (df_rows g)) (map d_id (df_rows f)) /\ List.length (df_rows g) = List.length (df_rows f) /\
+  map d_id (df_rows g) = map d_id S /\
+  (forall c, c <> "particle"%string -> map (cell c) (df_rows g) = map (cell c) S) /\
+  exists labs, Forall2 (fun ds lb => List.length lb = List.length ds /\ NoDup lb) (map (map r_pos) (table_frames (rows_of pc tc f))) labs /\
+               map (row_of pc tc) (df_rows g) = List.concat (table_frames (rows_of pc tc f)) /\
+               map (cell "particle") (df_rows g) = map Z.of_nat (List.concat labs).
+Proof. exact gen_link_valid. Qed.
+Print Assumptions C01_generated_rows_preserved.
+
+(* .. and for the generated link_df_iter: every yielded table is its input table (identities, cells)
+   plus a 'particle' column of pairwise different non-negative labels *)
+Theorem C01_generated_link_df_iter_valid : forall m mem max_size dfs pcs tc outs,
+  metric_ok m -> dfs <> [] ->
+  let pc := match pcs with Some v => v | None => guess_pos_columns (hd {| df_columns := []; df_float := []; df_rows := [] |} dfs) end in
+  forallb (has_cols (tc :: pc)) dfs = true ->
+  py_link_df_iter (model_linker m mem max_size) (ROk dfs) pcs tc = ROk outs ->
+  Forall2 (fun d g =>
+    map d_id (df_rows g) = map d_id (df_rows d) /\
+    (forall c, c <> "particle"%string -> map (cell c) (df_rows g) = map (cell c) (df_rows d)) /\
+    NoDup (map (cell "particle") (df_rows g)) /\ Forall (fun v => 0 <= v) (map (cell "particle") (df_rows g))) dfs outs.
+Proof. exact gen_link_df_iter_valid. Qed.
+Print Assumptions C01_generated_link_df_iter_valid.
+
+(* non-vacuity: a two-row table with a gap, linked by the generated link with a real metric *)
+Example C01_generated_link_example :
+  let f := {| df_columns := ["x"; "frame"]%string; df_float := ["frame"%string];
+              df_rows := [ {| d_id := 0; d_cells := [("x"%string, 7); ("frame"%string, 3)] |};
+                           {| d_id := 1; d_cells := [("x"%string, 5); ("frame"%string, 1)] |} ] |} in
+  option_map (fun g => (map d_id (df_rows g), map (cell "particle") (df_rows g), map (cell "frame") (df_rows g)))
+    (match py_link (model_linker {| mw := [1]; mR2 := 9 |} 0 30) f (Some ["x"%string]) "frame"%string with ROk g => Some g | RRaise _ => None end)
+  = Some ([1%nat; 0%nat], [0; 1], [1; 3]).
+Proof. vm_compute. reflexivity. Qed.
